@@ -220,6 +220,8 @@ def drive(case):
                 else:
                     o = 'escaped:%d' % pid
                     cls = 'escaped'
+            elif ret == 'exc':
+                o, cls = 'escaped:?', 'escaped'          # the handler itself let an exception out
             elif rec.parse_exc is not None:
                 o = 'reject:parse:%s:%s' % (rec.parse_exc, bl(added))
                 cls = 'reject'
@@ -227,8 +229,6 @@ def drive(case):
                 proto = h.request.http_handler_protocol
                 o = ('reject:unknown:%s' % bl(added)) if proto == 1 else 'reject:noplugin:%d:%s' % (proto, bl(added))
                 cls = 'reject'
-            elif ret == 'exc':
-                o, cls = 'escaped:?', 'escaped'
             elif h.request.state != 6:
                 o, cls = 'wait', 'wait'
             else:
@@ -243,7 +243,7 @@ def drive(case):
                 o, bl(buf), 1 if ret is True else 0, int(h.must_flush_before_shutdown), int(tdb), int(esc), int(ri), ps))
             infos.append({'o': cls, 'buf': buf, 'added': added, 'ret': ret, 'mf': h.must_flush_before_shutdown,
                           'td': tdb, 'esc': esc, 'ri': ri, 'tunnel': bool(h.request.is_https_tunnel),
-                          'hook_td': (rec.last[3] if rec.last else None)})
+                          'hook': (rec.last[0] if rec.last else None)})
     return out, rec, infos
 
 
@@ -482,8 +482,13 @@ def _oracle(case):
             if sent or info['ret'] is True or info['td'] or not info['ri']:
                 return 'output-or-teardown-while-waiting-for-the-rest-of-the-request'
             continue
+        if o == 'ignored':
+            return 'request-complete-but-neither-served-nor-rejected'
         if o == 'escaped':
-            # a non-protocol exception left the handler: the executor closes the connection (C05)
+            if info['hook'] is None:
+                # not a plugin hook: the handler itself let an exception out instead of answering 400
+                return 'exception-escapes-handle-data'
+            # a non-protocol exception of plugin code: the executor closes the connection (C05)
             if sent:
                 why = h11_check(sent, 'other')
                 if why:
@@ -504,8 +509,6 @@ def _oracle(case):
                 return 'read-interest-kept-after-reject'
             decided = True
             continue
-        if o == 'reject' and not closing:
-            return 'connection-kept-open-after-reject'
         # served / data without teardown: whatever was queued by the proxy itself must be well formed
         if o == 'served' and sent:
             why = h11_check(sent, 'connect' if info['tunnel'] else 'other', eof=False)
